@@ -76,6 +76,8 @@ type table struct {
 	mu        sync.Mutex
 	ids       map[string]bool
 	dupID     string
+
+	noRouteGen int // how often the no-route handler has been replaced
 }
 
 func takeSnap(t *table, s *httpd.Store) (sn snap) {
@@ -100,11 +102,23 @@ func takeSnap(t *table, s *httpd.Store) (sn snap) {
 
 type panicMarker struct{ n int }
 
-func (t *table) handler(idx int) httpd.HandlerFunc {
+// replaceNoRoute installs a new no-route handler (HandleNoRoute between requests): from now on unmatched requests must
+// reach this one, whatever Store they are served on.
+func (t *table) replaceNoRoute() {
+	t.noRouteGen++
+	t.mux.HandleNoRoute(t.handlerGen(-1, t.noRouteGen))
+}
+
+func (t *table) handler(idx int) httpd.HandlerFunc { return t.handlerGen(idx, 0) }
+
+func (t *table) handlerGen(idx int, gen int) httpd.HandlerFunc {
 	return func(s *httpd.Store) {
 		rec := s.R.Context().Value(ctxKey{}).(*record)
 		rec.Calls++
 		rec.Route = idx
+		if idx == -1 && gen != t.noRouteGen {
+			rec.Route = -3 // a no-route handler that has been replaced since
+		}
 		if fp := s.R.Header.Get("X-Forward-Path"); fp != "" {
 			// forward another request through the same Mux, handing it this Store's ResponseWriter, before looking at
 			// this request's own Store
@@ -296,6 +310,9 @@ func (t *table) judgeOne(rq request, rec *record, escaped any, compareFresh bool
 	strip := func(s snap) string { s.Status = 0; return s.key() }
 	if strings.HasPrefix(rq.path, "/") {
 		wantRoute, wantKey := t.model(rq)
+		if rec.Route == -3 {
+			return "a no-route handler that had been replaced by a later HandleNoRoute call was invoked"
+		}
 		if rec.Route != wantRoute {
 			return fmt.Sprintf("selected route %d, reference router says %d", rec.Route, wantRoute)
 		}
@@ -473,6 +490,11 @@ func runMachine(t *rapid.T, concurrent bool) {
 		ev.Label("history:second_Mux_served_requests_in_between")
 	}
 	actions := map[string]func(*rapid.T){
+		"replaceNoRoute": func(t *rapid.T) {
+			tb.replaceNoRoute()
+			hist = append(hist, "HandleNoRoute(another handler)")
+			ev.Label("history:no_route_handler_replaced")
+		},
 		"requestOnOtherMux": requestOnOtherMux,
 		"register":          register,
 		"request":           func(t *rapid.T) { doRequest(t, false) },
